@@ -20,7 +20,10 @@ Definition tspec_simple (t : tspec) : bool :=
 
 Definition sig_simple (sg : cmdsig) : bool :=
   tspec_simple (cs_test_py sg) && tspec_simple (cs_test_ts sg) && tspec_simple (cs_test_rs sg)
-  && forallb slash_simple (cs_default_ignore sg).
+  && match cs_ikind sg with
+     | ISubstr | IMatchOrSubstr => forallb slash_simple (cs_default_ignore sg)   (* substring-type lists only *)
+     | _ => true
+     end.
 
 (* every marker / default ignore entry found in the source is a pattern that cannot straddle two components *)
 Lemma gen_sigs_simple : forallb sig_simple command_sigs = true.
@@ -99,36 +102,68 @@ Proof.
   now apply file_location_independent_gen.
 Qed.
 
-(* ---------- the cross-file rule (dry): the same, for the whole run ---------- *)
+(* ---------- the cross-file rules (dry, stringly-typed): the same, for the whole run ---------- *)
 Lemma denotes_true_rel e f s : denotes e f s -> true_rel e (f_given f) = s_rel s.
 Proof. intros (_ & Hres & _). unfold true_rel. rewrite Hres, strip_prefix_app. reflexivity. Qed.
 
-Lemma participates_off q e f s : flags_off q -> denotes e f s -> participates q e f = s_participates (e_root_pats e) s.
+Lemma xf_ignored_off q e k pats f s : flags_off q -> denotes e f s -> xf_ignored q e k pats f = s_ignored k pats s.
 Proof.
-  intros (H2 & H3 & H4 & H5) Hd. unfold participates, s_participates, orch_ignored.
-  rewrite (denotes_true_rel _ _ _ Hd), exclusion_scope_now, andb_false_r, H2. destruct Hd as (Hn & _). rewrite Hn. reflexivity.
+  intros (_ & H3 & _) Hd. unfold xf_ignored, s_ignored. rewrite (denotes_true_rel _ _ _ Hd), H3. reflexivity.
 Qed.
 
-Lemma partners_off q e files sfiles l : flags_off q -> Forall2 (denotes e) files sfiles ->
-  partners q e files l = s_partners (e_root_pats e) sfiles l.
+Lemma participates_off gate q e k pats f s : flags_off q -> denotes e f s ->
+  participates gate q e k pats f = s_participates gate (e_root_pats e) k pats s.
+Proof.
+  intros Hq Hd. unfold participates, s_participates, orch_pass, orch_ignored.
+  rewrite (xf_ignored_off _ _ _ _ _ _ Hq Hd), (denotes_true_rel _ _ _ Hd), exclusion_scope_now, andb_false_r.
+  destruct Hq as (H2 & _). rewrite H2. destruct Hd as (Hn & _). rewrite Hn. reflexivity.
+Qed.
+
+Lemma partners_off gate q e k pats files sfiles l : flags_off q -> Forall2 (denotes e) files sfiles ->
+  partners gate q e k pats files l = s_partners gate (e_root_pats e) k pats sfiles l.
 Proof.
   intros Hq HF. unfold partners, s_partners. induction HF as [|f s fs ss Hd _ IH]; [reflexivity|].
-  cbn [filter]. rewrite (participates_off _ _ _ _ Hq Hd). destruct Hd as (_ & _ & Hl & _). rewrite Hl.
-  destruct (s_participates (e_root_pats e) s && lang_eqb (s_lang s) l); cbn [List.length]; now rewrite IH.
+  cbn [filter]. rewrite (participates_off _ _ _ _ _ _ _ Hq Hd). destruct Hd as (_ & _ & Hl & _). rewrite Hl.
+  destruct (s_participates gate (e_root_pats e) k pats s && lang_eqb (s_lang s) l); cbn [List.length]; now rewrite IH.
+Qed.
+
+Theorem xfile_location_independent gate q e sg cfg files sfiles :
+  flags_off q -> Forall2 (denotes e) files sfiles ->
+  xfile_result gate q e sg cfg files = xfile_spec gate (e_root_pats e) sg cfg sfiles.
+Proof.
+  intros Hq HF. unfold xfile_result, xfile_spec.
+  set (k := cs_ikind sg). set (pats := ignore_pats sg cfg).
+  assert (HP : forall l, partners gate q e k pats files l = s_partners gate (e_root_pats e) k pats sfiles l) by (intros l; now apply partners_off).
+  revert HP. generalize (partners gate q e k pats files) (s_partners gate (e_root_pats e) k pats sfiles). intros pa pb HP.
+  induction HF as [|f s fs ss Hd _ IH]; [reflexivity|].
+  cbn [map]. rewrite IH. f_equal.
+  rewrite (participates_off _ _ _ _ _ _ _ Hq Hd), HP, (xf_ignored_off _ _ _ _ _ _ Hq Hd), (denotes_true_rel _ _ _ Hd).
+  assert (HR : s_participates gate (e_root_pats e) k pats s = true ->
+               cs_cwd_parser sg && rule_ignored q e (f_given f) (s_rel s) = false).
+  { intros Hp. unfold s_participates in Hp. apply andb_true_iff in Hp. destruct Hp as [Hp _]. apply andb_true_iff in Hp. destruct Hp as [_ Hp].
+    apply negb_true_iff in Hp. unfold rule_ignored, orch_ignored. destruct Hq as (H2 & _ & _ & H5). rewrite H5, H2. cbn [andb].
+    rewrite Hp. apply andb_false_r. }
+  destruct Hd as (_ & _ & Hl & Hr). rewrite Hl, Hr.
+  destruct (s_participates gate (e_root_pats e) k pats s) eqn:EP; [|reflexivity].
+  rewrite (HR eq_refl). cbn [negb]. rewrite andb_true_r. reflexivity.
+Qed.
+
+(* the judge evaluates a version that computes the per-file decisions once: it is the same function *)
+Lemma filter_map_length {A B} (g : A -> B) (P : B -> bool) l :
+  List.length (filter P (map g l)) = List.length (filter (fun x => P (g x)) l).
+Proof. induction l as [|x l IH]; [reflexivity|]. cbn [map filter]. destruct (P (g x)); cbn [List.length]; now rewrite IH. Qed.
+
+Theorem xfile_result_fast_eq gate q e sg cfg files :
+  xfile_result_fast gate q e sg cfg files = xfile_result gate q e sg cfg files.
+Proof.
+  unfold xfile_result_fast, xfile_result. rewrite map_map. apply map_ext. intros f. cbn [fst snd].
+  unfold partners, participates. rewrite filter_map_length. reflexivity.
 Qed.
 
 Theorem dry_location_independent q e sg cfg files sfiles :
   flags_off q -> Forall2 (denotes e) files sfiles ->
   dry_result q e sg cfg files = dry_spec (e_root_pats e) sg cfg sfiles.
-Proof.
-  intros Hq HF. unfold dry_result, dry_spec.
-  assert (HP : forall l, partners q e files l = s_partners (e_root_pats e) sfiles l) by (intros l; now apply partners_off).
-  revert HP. generalize (partners q e files) (s_partners (e_root_pats e) sfiles). intros pa pb HP.
-  induction HF as [|f s fs ss Hd _ IH]; [reflexivity|].
-  cbn [map]. rewrite IH. f_equal.
-  rewrite (participates_off _ _ _ _ Hq Hd), HP. unfold dry_ignored. rewrite (denotes_true_rel _ _ _ Hd).
-  destruct Hq as (_ & H3 & _). rewrite H3. destruct Hd as (_ & _ & Hl & Hr). rewrite Hl, Hr. reflexivity.
-Qed.
+Proof. apply xfile_location_independent. Qed.
 
 (* the headline: the same project at two locations / from two working directories / in two spellings *)
 Theorem two_locations_agree q sg cfg e1 e2 files1 files2 sfiles :
@@ -211,7 +246,7 @@ Definition pats_clean (k : ikind) (pats : list string) (lead_s : string) (rel : 
   | ISubstr => forallb slash_simple pats && negb (any_sub pats lead_s)
   | IMatchOrSubstr => forallb slash_simple pats && negb (any_sub pats lead_s)
                       && forallb (fun p => Nat.leb (List.length (pattern_parts p)) (List.length rel)) pats
-  | IFnmatchOrSubstr => match pats with [] => true | _ => false end
+  | IFnmatchOrSubstr | IFileHeader => match pats with [] => true | _ => false end
   | IFpDirPrefix => true
   end.
 
@@ -255,6 +290,7 @@ Proof.
     pose proof (any_sub_given pats true lead rel Hs Hne (or_introl eq_refl)) as E. cbn [lead_str] in E.
     rewrite Hn, orb_false_r in E. unfold any_sub in E. rewrite E. f_equal.
     apply existsb_ext_in. intros p Hp. apply path_match_app. apply Nat.leb_le. exact (forallb_in _ _ Hlen p Hp).
+  - destruct pats; [reflexivity|discriminate].
   - destruct pats; [reflexivity|discriminate].
   - contradiction.
 Qed.
@@ -303,6 +339,8 @@ Proof.
     rewrite (linter_ignored_abs IMatchOrSubstr _ _ _ Hne Hpc); [reflexivity|discriminate].
   - rewrite HT, HR. destruct (q_linter_ignore_full_path q); [|reflexivity].
     rewrite (linter_ignored_abs IFnmatchOrSubstr _ _ _ Hne Hpc); [reflexivity|discriminate].
+  - rewrite HT, HR. destruct (q_linter_ignore_full_path q); [|reflexivity].
+    rewrite (linter_ignored_abs IFileHeader _ _ _ Hne Hpc); [reflexivity|discriminate].
   - rewrite HF. reflexivity.
 Qed.
 
@@ -350,7 +388,7 @@ Definition pats_clean_dot (k : ikind) (pats : list string) (rel : list string) :
   match k with
   | INone | IFpDirPrefix => true
   | ISubstr | IMatchOrSubstr => lead_slash_absent pats rel
-  | IFnmatchOrSubstr => match pats with [] => true | _ => false end
+  | IFnmatchOrSubstr | IFileHeader => match pats with [] => true | _ => false end
   end.
 
 Theorem confinement_project_relative q e sg cfg rel lg raw :
@@ -411,6 +449,8 @@ Proof.
   - rewrite HT, HR. destruct (q_linter_ignore_full_path q); reflexivity.
   - rewrite HT, HR. destruct (q_linter_ignore_full_path q); [|reflexivity]. rewrite (HL ISubstr eq_refl (or_introl eq_refl)). reflexivity.
   - rewrite HT, HR. destruct (q_linter_ignore_full_path q); [|reflexivity]. rewrite (HL IMatchOrSubstr eq_refl (or_intror eq_refl)). reflexivity.
+  - rewrite HT, HR. cbn [pats_clean_dot] in Hpc. destruct (ignore_pats sg cfg); [|discriminate].
+    destruct (q_linter_ignore_full_path q); reflexivity.
   - rewrite HT, HR. cbn [pats_clean_dot] in Hpc. destruct (ignore_pats sg cfg); [|discriminate].
     destruct (q_linter_ignore_full_path q); reflexivity.
   - rewrite HF. reflexivity.
